@@ -249,7 +249,8 @@ def collect(ctx, mode):
         gk = json.dumps([cfg, sorted(sub), salt, "continued"])
         shard_of = lambda p: (sd.morton_ref(cfg["grid"], p) >> (cfg["pb"] + cfg["mb"])) & ((1 << cfg["sb"]) - 1)  # noqa: E731
         shards = sorted({shard_of(p) for p in order})
-        variants = [dict(), dict(reuse_buffer=True)]
+        variants = [dict(), dict(reuse_buffer=True),
+                    dict(coord_type=ctx.rng.choice(["int64", "int64", "uint64", "int32"]))]
         if len(shards) >= 2:
             first = set(ctx.rng.sample(shards, ctx.rng.randint(1, len(shards) - 1)))
             o2 = [p for p in order if shard_of(p) in first] + [p for p in order if shard_of(p) not in first]
@@ -359,7 +360,8 @@ def run(ctx):
                           {"cfg": rec["cfg"], "enc": rec["enc"], "ienc": rec.get("ienc"), "strategy": rec["strategy"],
                            "order": [s["pos"] for s in rec["stores"]],
                            "storeerr": rec["storeerr"], "files": rec["files"],
-                           "multiscale": rec.get("multiscale"), "scale": rec.get("scale")})
+                           "multiscale": rec.get("multiscale"), "scale": rec.get("scale"),
+                           "coord_type": rec.get("coord_type")})
     for rec, case in cases[:2]:
         ctx.sample({"cfg": rec["cfg"], "enc": rec["enc"], "order": [s["pos"] for s in rec["stores"]],
                     "files": [{"name": f["name"], "len": f["len"], "index": f["index"]} for f in rec["files"]],
@@ -378,7 +380,7 @@ def replay(ctx, path):
                                 strategy=m["strategy"], salt=m["salt"])[d["scale"]]
     else:
         rec = sd.run_session(work, cfg, [tuple(p) for p in d["order"]],
-                             strategy=d.get("strategy", "in memory"), salt=0)
+                             strategy=d.get("strategy", "in memory"), salt=0, coord_type=d.get("coord_type"))
         sd.drop_dir(rec)
     case = case_from(rec, ctx.prop)
     v = ctx.judge("Trace_Shard", [case])
